@@ -273,6 +273,8 @@ DEFECT_EXHIBITS = [
 ]
 
 POOL_EXHIBITS = [
+    # connectMany that returns at the first failure: a straggler lands after the next fill -> more than Size connections
+    ("MC_Pool_x_nojoin.cfg", "SizeBound"),
     # a socket Close() error re-enters HandleError: closing under pool.mu must be exhibited as a self-deadlock
     ("MC_Pool_x_latelock.cfg", "NoSelfDeadlock"),
     ("MC_Pool_x_closelock.cfg", "NoSelfDeadlock"),
@@ -395,7 +397,7 @@ def run(ctx):
     scheds, nmacro, _ = pool_schedules(g, 2)
     # sizes 1 and 3 as well (size 1: the only connection dies -> refilled; size 3: one trigger, connectMany of 2)
     extra_graphs = []
-    for size, cfg in ((1, "MC_Pool_edges1.cfg"), (3, "MC_Pool_edges3.cfg")):
+    for size, cfg in ((1, "MC_Pool_edges1.cfg"), (3, "MC_Pool_edges3.cfg" if quick else "MC_Pool_edges3full.cfg")):
         rx = vf.run_tlc(ctx, "MC_Pool", cfg, workers=1, timeout=600, deadlock=False, name="pool_edges%d" % size,
                         extra=["-noGenerateSpecTE"])
         if not rx.ok:
